@@ -105,6 +105,25 @@ def gen_cases(rng, tier):
         c = pt_case(0, t, corp[0][2], 'capacity', (lab,))
         c['id'] = 'ptcap-%s' % lab
         cases.append(c)
+    # layers (and every other top-level item) defined in an included file: longer than, as long as and shorter than the
+    # including file, with multi-byte text and a byte-order mark on either side (spans are offsets into the file they belong to)
+    pad = ';; ' + 'é🙂' * 40 + '\n'
+    inc_layers = ['(deflayer base a b)\n', pad + '(deflayer base a b)\n(deflayer é🙂 _ b)\n' + pad,
+                  pad * 3 + '(deflayermap (base) a b)\n(deflayer two _ _)', '(defalias x a)\n' + pad + '(deflayer base @x b) ;; é',
+                  '(deflayer base a b)(deflayermap (m🙂) a b)']
+    mains = ['(defsrc a b)(include included-file.kbd)', '(include included-file.kbd)\n(defsrc a b)\n',
+             ';; é🙂é\n(defsrc a b)\n(include included-file.kbd)\n' + pad,
+             '(defsrc a b)\n(deflayer zero b a)\n(include included-file.kbd)\n;;é']
+    ik = 0
+    for inc in inc_layers:
+        for m in mains:
+            for bom_m in ('', '\ufeff'):
+                for bom_i in ('', '\ufeff'):
+                    c = pt_case(0, bom_m + m, {'included-file.kbd': bom_i + inc}, 'include-layers',
+                                ('bom' if bom_m else 'plain', 'incbom' if bom_i else 'incplain'))
+                    c['id'] = 'ptinc%d' % ik
+                    ik += 1
+                    cases.append(c)
     cons = cfgmut.constructs()
     if tier == 'quick':
         # rotate through the constructs: a third of them per seed residue, all of them in the thorough tier
